@@ -434,7 +434,9 @@ func confRestore(p *Program, id string) []Obligation {
 	sp := NewSpace(typ, inLoop)
 	a := NewAnalysis(p, sp)
 	a.Hook = func(a *Analysis, f *Frame, in ssa.Instruction, st State) State {
-		if iface, m, _ := invokeOf(in); iface == "Log" && m == "GetEntry" && f.Parent == nil {
+		// (only the read of the scanned entry starts the scan: restore may look at other entries before, e.g. the one
+		// at the snapshot boundary)
+		if iface, m, c := invokeOf(in); iface == "Log" && m == "GetEntry" && f.Parent == nil && p.Canon(f, c.Args[0]).S == idx {
 			return sp.Assign(st, 1, 1)
 		}
 		if s, fld := storeField(in); s != nil && fld == confFld && f.Parent == nil {
